@@ -31,6 +31,9 @@ import (
 
 const nDeputies = 3
 
+// every block of a scenario has this gas limit, so that a candidate can run into the end of the block
+const blockGasLimit = 1500000
+
 var gasPrice = big.NewInt(1000000000)
 
 type adapter struct {
@@ -112,6 +115,30 @@ func (a *adapter) init() {
 	a.contract = crypto.CreateContractAddress(f, a.txs["create"].Hash())
 	a.mk("call", f, fk, &a.contract, 3*lemo, params.OrdinaryTx, []byte{1, 2, 3, 4}, 200000)
 	a.mk("revert", f, fk, nil, 0, params.CreateContractTx, common.FromHex("0x602a60005560006000fd"), 500000)
+	// boxes: the box transaction pays its own gas; every sub-transaction is signed and paid by its own sender
+	sub := func(from common.Address, key *ecdsa.PrivateKey, amount int64, gas uint64, tag string) *types.Transaction {
+		tx := types.NewTransaction(from, a.r2, big.NewInt(amount), gas, gasPrice, nil, params.OrdinaryTx, node.ChainID, uint64(node.GenesisTime)+1000, "", tag)
+		stx, err := types.DefaultSigner{}.SignTx(tx, key)
+		if err != nil {
+			panic(err)
+		}
+		return stx
+	}
+	mkbox := func(kind string, subs ...*types.Transaction) {
+		data, err := types.MarshalBoxData(subs)
+		if err != nil {
+			panic(err)
+		}
+		tx := types.NoReceiverTransaction(f, big.NewInt(0), 200000, gasPrice, data, params.BoxTx, node.ChainID, uint64(node.GenesisTime)+1000, "", kind)
+		stx, err := types.DefaultSigner{}.SignTx(tx, fk)
+		if err != nil {
+			panic(err)
+		}
+		a.txs[kind] = stx
+	}
+	mkbox("boxok", sub(f, fk, 5, 30000, "bo1"), sub(f, fk, 6, 30000, "bo2"))
+	mkbox("boxfull", sub(f, fk, 7, 30000, "bf1"), sub(f, fk, 8, blockGasLimit+500000, "bf2"))
+	mkbox("boxbad", sub(f, fk, 9, 30000, "bb1"), sub(a.poor, a.poork, 1, 30000, "bb2"))
 	a.addrs = append([]common.Address{f, a.r1, a.r2, a.poor, a.contract, crypto.CreateContractAddress(f, a.txs["revert"].Hash())}, a.w.Miners...)
 }
 
@@ -223,7 +250,8 @@ func (a *adapter) Apply(s engine.Step) (engine.Fields, error) {
 	extra := fmt.Sprintf("h%d", a.height)
 	fl := engine.Fields{}
 	// node A: the honest miner, offered the whole candidate list
-	blk, invalid, err := a.a.Build(a.tip, rank, 0, cands, extra)
+	small := func(h *types.Header) { h.GasLimit = blockGasLimit }
+	blk, invalid, err := a.a.BuildWith(a.tip, rank, 0, cands, extra, small, true)
 	if err != nil {
 		return nil, fmt.Errorf("miner A: %v", err)
 	}
@@ -253,7 +281,7 @@ func (a *adapter) Apply(s engine.Step) (engine.Fields, error) {
 		fl["stateC"], _ = a.dump(a.c.DB, blk.Hash())
 	}
 	// node A2: a second miner offered ONLY the included transactions must seal the very same block
-	blk2, inv2, err := a.a2.Build(a.tip, rank, 0, blk.Txs, extra)
+	blk2, inv2, err := a.a2.BuildWith(a.tip, rank, 0, blk.Txs, extra, small, true)
 	if err != nil {
 		return nil, fmt.Errorf("miner A2: %v", err)
 	}
